@@ -21,6 +21,7 @@ import re
 import subprocess
 
 import vlib
+from checks import racelib
 
 
 def races(stderr):
@@ -145,8 +146,15 @@ def check(run):
             ev = vlib.load_events(tp)
             e = ev[line - 1] if 0 < line <= len(ev) else {}
             v.add("stress:%s" % e.get("op"), "post-stress obligation violated at %s" % json.dumps(e)[:1500], {"kind": "stress", "event": e})
+    # a client that pipelines CONNECT with DISCONNECT / hangs up before its CONNACK, with the set-up parked at each of its steps: the
+    # connection's goroutines must not lose or resurrect the registry entry between them (a deterministic form of that race)
+    rn, rparked, rnev, rval, rrej, rts = racelib.check_family(
+        run, "C20", v, keep=lambda s: any(o["op"] == "race" and o["a"]["op"] == "connect" and o["a"].get("client") == "hasty" for o in s["ops"]), tag="hasty")
+    validated += rval
+    tstates += rts
     rc = v.finish()
     vlib.write_evidence(run, {
+        "hasty_clients": {"interleavings": rn, "parked_at_their_gate": rparked, "events": rnev, "rejections": rrej},
         "traces_validated_against_impl": validated + sval,
         "evaluations": nhist + nstress,
         "distinct_nontrivial": nhist,
